@@ -6,8 +6,11 @@ import (
 	"errors"
 	"fmt"
 	"hash"
+	"hash/fnv"
 	"strconv"
 	"strings"
+	"sync"
+	"sync/atomic"
 	"time"
 
 	"github.com/Shopify/sarama"
@@ -18,11 +21,11 @@ import (
 type fixedHash struct{ sum uint32 }
 
 func (f *fixedHash) Write(p []byte) (int, error) { return len(p), nil }
-func (f *fixedHash) Sum(b []byte) []byte          { return b }
-func (f *fixedHash) Reset()                       {}
-func (f *fixedHash) Size() int                    { return 4 }
-func (f *fixedHash) BlockSize() int               { return 1 }
-func (f *fixedHash) Sum32() uint32                { return f.sum }
+func (f *fixedHash) Sum(b []byte) []byte         { return b }
+func (f *fixedHash) Reset()                      {}
+func (f *fixedHash) Size() int                   { return 4 }
+func (f *fixedHash) BlockSize() int              { return 1 }
+func (f *fixedHash) Sum32() uint32               { return f.sum }
 
 var _ hash.Hash32 = &fixedHash{}
 
@@ -32,13 +35,15 @@ type scripted struct {
 	cons   bool
 }
 
-func (s *scripted) Partition(m *sarama.ProducerMessage, n int32) (int32, error) { return s.choice, s.err }
-func (s *scripted) RequiresConsistency() bool                                  { return s.cons }
+func (s *scripted) Partition(m *sarama.ProducerMessage, n int32) (int32, error) {
+	return s.choice, s.err
+}
+func (s *scripted) RequiresConsistency() bool { return s.cons }
 
 type constPart struct{ c int32 }
 
 func (s *constPart) Partition(m *sarama.ProducerMessage, n int32) (int32, error) { return s.c, nil }
-func (s *constPart) RequiresConsistency() bool                                  { return false }
+func (s *constPart) RequiresConsistency() bool                                   { return false }
 
 func errCode(e error) int {
 	var ke sarama.KError
@@ -133,6 +138,95 @@ func doE2E(cons bool, np int, before, after []bool, chs []int) []string {
 		out = append(out, "close-timeout")
 	}
 	return out
+}
+
+// countingHash is a real FNV-1a hasher that counts the Write calls it receives.
+type countingHash struct {
+	hash.Hash32
+	writes *int64
+}
+
+func (c *countingHash) Write(p []byte) (int, error) {
+	atomic.AddInt64(c.writes, 1)
+	return c.Hash32.Write(p)
+}
+
+// hasherOwnership: every partitioner a constructor builds has its own hasher ("hash partitioners map equal keys to
+// equal partitions" also when several topics are partitioned at the same time: the producer runs one goroutine per topic).
+// Deterministic part: n partitioners built from one constructor make n calls to the hash factory, and a Partition call
+// on partitioner i writes to hasher i only.  Concurrent part: two partitioners of one constructor used from two
+// goroutines give, for a fixed key, the partition the single-threaded call gave.
+func hasherOwnership() {
+	for _, how := range []string{"NewCustomHashPartitioner", "NewCustomPartitioner+WithCustomHashFunction", "NewReferenceHashPartitioner-like"} {
+		var made []*int64
+		mk := func() hash.Hash32 {
+			w := new(int64)
+			made = append(made, w)
+			return &countingHash{Hash32: fnv.New32a(), writes: w}
+		}
+		var ctor sarama.PartitionerConstructor
+		switch how {
+		case "NewCustomHashPartitioner":
+			ctor = sarama.NewCustomHashPartitioner(mk)
+		case "NewCustomPartitioner+WithCustomHashFunction":
+			ctor = sarama.NewCustomPartitioner(sarama.WithCustomHashFunction(mk))
+		default:
+			ctor = sarama.NewCustomPartitioner(sarama.WithAbsFirst(), sarama.WithCustomHashFunction(mk))
+		}
+		const n = 4
+		var ps []sarama.Partitioner
+		for i := 0; i < n; i++ {
+			ps = append(ps, ctor(fmt.Sprintf("topic-%d", i)))
+		}
+		desc := "hasher-ownership " + how
+		run.Count("hasher-ownership")
+		if len(made) != n {
+			run.IOFail("partitioners-share-a-hasher", desc, fmt.Sprintf("%d partitioners were built with %d calls of the hash function factory", n, len(made)))
+			continue
+		}
+		bad := false
+		for i, p := range ps {
+			before := make([]int64, n)
+			for j := range made {
+				before[j] = atomic.LoadInt64(made[j])
+			}
+			p.Partition(&sarama.ProducerMessage{Topic: "t", Key: sarama.StringEncoder("k")}, 16)
+			for j := range made {
+				d := atomic.LoadInt64(made[j]) - before[j]
+				if (j == i && d == 0) || (j != i && d != 0) {
+					bad = true
+				}
+			}
+		}
+		if bad {
+			run.IOFail("partitioners-share-a-hasher", desc, "a Partition call on one partitioner wrote to another partitioner's hasher")
+		}
+		// concurrent use of two partitioners of one constructor
+		keys := []string{"alpha-key-0123456789", "b"}
+		want := make([]int32, 2)
+		for i := range keys {
+			want[i], _ = ps[i].Partition(&sarama.ProducerMessage{Topic: "t", Key: sarama.StringEncoder(keys[i])}, 97)
+		}
+		var wrong int64
+		var wg sync.WaitGroup
+		for i := range keys {
+			i := i
+			wg.Add(1)
+			go func() {
+				defer wg.Done()
+				for k := 0; k < 30000 && atomic.LoadInt64(&wrong) == 0; k++ {
+					c, _ := ps[i].Partition(&sarama.ProducerMessage{Topic: "t", Key: sarama.StringEncoder(keys[i])}, 97)
+					if c != want[i] {
+						atomic.AddInt64(&wrong, 1)
+					}
+				}
+			}()
+		}
+		wg.Wait()
+		if wrong > 0 {
+			run.IOFail("equal-keys-different-partitions-under-concurrency", desc, "two partitioners of one constructor used from two goroutines: a key was mapped to a partition other than its own")
+		}
+	}
 }
 
 func emitE2E(rnd *hlib.Rand) {
@@ -486,6 +580,7 @@ func main() {
 			emitPM(rc, as, ws, ch)
 		}
 	}
+	hasherOwnership()
 	// custom fallback option (one probe per run: a diverging call costs a 5 s timeout)
 	{
 		op := "fb variant 4 0 2"
@@ -564,5 +659,7 @@ func replayLine(l string) {
 		emitPM(t[1] == "1", t[2], t[3], t[4])
 	case "fb":
 		run.Emit(l, doFallback(int32(hlib.Atoi(t[2])), int32(hlib.Atoi(t[4]))))
+	case "hasher-ownership":
+		hasherOwnership()
 	}
 }
